@@ -95,4 +95,126 @@ theorem batched_quiet_complete {c : Cfg} (hS : Shape c) (hB : BShape c) (hJ : BJ
   obtain ⟨p, hp, f, hf, rfl⟩ := hall i hi
   exact hheld p hp f hf
 
+/-! ### the branch that completes a batch publishes the re-entry event -/
+
+theorem nextStart_mod {f : Frame} : nextStart f % f.mc = 0 := by
+  simp [nextStart, Nat.add_mod_right, Nat.mul_mod_left]
+
+theorem nextStart_pos {f : Frame} (hmc : 0 < f.mc) : 0 < nextStart f := by
+  simp only [nextStart]; omega
+
+/-- a multiple of `mc` below the start of the next batch is at most the start of this one -/
+theorem mult_le {mc k s : Nat} (hmc : 0 < mc) (hs : s % mc = 0) (hlt : s < k * mc + mc) : s ≤ k * mc := by
+  have h1 : s / mc < k + 1 := (Nat.div_lt_iff_lt_mul hmc).mpr (by rw [Nat.add_mul, Nat.one_mul]; exact hlt)
+  have h2 : s / mc * mc = s := by
+    have := Nat.div_add_mod s mc
+    rw [hs, Nat.add_zero, Nat.mul_comm] at this; exact this
+  rw [← h2]
+  exact Nat.mul_le_mul_right mc (by omega)
+
+/-- a slot at or beyond the start of the next batch: its batch starts there or later -/
+theorem batch_ge {mc k i : Nat} (hmc : 0 < mc) (hi : k * mc + mc ≤ i) : k + 1 ≤ i / mc ∧ k * mc + mc ≤ i / mc * mc := by
+  have h1 : k + 1 ≤ i / mc := (Nat.le_div_iff_mul_le hmc).mpr (by rw [Nat.add_mul, Nat.one_mul]; exact hi)
+  refine ⟨h1, ?_⟩
+  have := Nat.mul_le_mul_right mc h1
+  rw [Nat.add_mul, Nat.one_mul] at this; exact this
+
+/-- **`BShape` survives the publication of the re-entry event** by the branch event `x` (slot `f.idx`) whose end completes its
+batch: the next batch exists and is not on record -/
+theorem BShape.publish {c d : Cfg} (hS : Shape c) (hB : BShape c) {x : Nat × EvKind} {f : Frame} (hx : x ∈ evK c)
+    (hxf : brEv x f) (hmc : 0 < f.mc) (hnext : nextStart f < f.width) (hrec : (f.jid, nextStart f) ∉ c.batches)
+    (hev : evK d = evK c ++ [(c.nextId, .reenter f (nextStart f) [] none)])
+    (hb : d.batches = c.batches ++ [(f.jid, nextStart f)]) (hn : d.nextJ = c.nextJ) : BShape d := by
+  have hmem : ∀ p, p ∈ evK d ↔ p ∈ evK c ∨ p = (c.nextId, .reenter f (nextStart f) [] none) := by
+    intro p; rw [hev]; simp
+  have hbm : ∀ b, b ∈ d.batches ↔ b ∈ c.batches ∨ b = (f.jid, nextStart f) := by
+    intro b; rw [hb]; simp
+  -- the branch events are those of `c`
+  have hbr : ∀ p ∈ evK d, ∀ g, brEv p g → p ∈ evK c := by
+    intro p hp g hg
+    rcases (hmem p).mp hp with h | rfl
+    · exact h
+    · simp [brEv, evStack] at hg
+  have hfr : ∀ p ∈ evK c, ∀ g, brEv p g → g.jid = f.jid ∧ g.branches = f.branches ∧ g.rest = f.rest ∧ g.mc = f.mc := by
+    intro p hp g hg
+    have := hS.same p hp x hx g f hg hxf
+    exact ⟨this.1, this.2.1, this.2.2.1, hB.samemc p hp x hx g f hg hxf⟩
+  -- every launched slot is below the new batch
+  have hbelow : ∀ p ∈ evK c, ∀ g, brEv p g → g.idx < nextStart f := by
+    intro p hp g hg
+    obtain ⟨hj, _, _, hm⟩ := hfr p hp g hg
+    apply Classical.byContradiction
+    intro hge
+    have hge' : f.idx / f.mc * f.mc + f.mc ≤ g.idx := by simp only [nextStart] at hge; omega
+    obtain ⟨h1, h2⟩ := batch_ge hmc hge'
+    have hne : g.idx / g.mc ≠ 0 := by
+      rw [hm]; intro h0; rw [h0] at h1; exact Nat.not_succ_le_zero _ h1
+    have hin := hB.imax p hp g hg hne
+    have := hB.down p hp g hg _ (nextStart f) hin (nextStart_pos hmc) (by rw [hm]; exact h2) (by rw [hm]; exact nextStart_mod)
+    rw [hj] at this
+    exact hrec this
+  constructor
+  · intro p hp g hg i hi hb'
+    obtain ⟨p', hp', g', hg', hi'⟩ := hB.bcover p (hbr p hp g hg) g hg i hi hb'
+    exact ⟨p', (hmem p').mpr (Or.inl hp'), g', hg', hi'⟩
+  · intro p hp g hg
+    obtain ⟨p', hp', g', hg', hi'⟩ := hB.zero p (hbr p hp g hg) g hg
+    exact ⟨p', (hmem p').mpr (Or.inl hp'), g', hg', hi'⟩
+  · intro p1 hp1 p2 hp2 g1 g2 hg1 hg2
+    exact hB.samemc p1 (hbr p1 hp1 g1 hg1) p2 (hbr p2 hp2 g2 hg2) g1 g2 hg1 hg2
+  · intro p hp g s st o hk
+    rcases (hmem p).mp hp with hpc | rfl
+    · obtain ⟨⟨p0, hp0, g0, hg0, h0⟩, hin, hall⟩ := hB.re p hpc g s st o hk
+      refine ⟨⟨p0, (hmem p0).mpr (Or.inl hp0), g0, hg0, h0⟩, (hbm _).mpr (Or.inl hin), ?_⟩
+      intro p2 hp2 g2 hg2
+      exact hall p2 (hbr p2 hp2 g2 hg2) g2 hg2
+    · simp only [EvKind.reenter.injEq] at hk
+      obtain ⟨rfl, rfl, rfl, rfl⟩ := hk
+      obtain ⟨p0, hp0, g0, hg0, h0⟩ := hB.zero x hx f hxf
+      refine ⟨⟨p0, (hmem p0).mpr (Or.inl hp0), g0, hg0, h0⟩, (hbm _).mpr (Or.inr rfl), ?_⟩
+      intro p2 hp2 g2 hg2
+      have hp2c := hbr p2 hp2 g2 hg2
+      obtain ⟨a, b, c', e⟩ := hfr p2 hp2c g2 hg2
+      exact ⟨a.symm, b.symm, c'.symm, e.symm, hbelow p2 hp2c g2 hg2⟩
+  · intro p hp g hg s hs
+    have hpc := hbr p hp g hg
+    rcases (hbm _).mp hs with hs | hs
+    · rcases hB.rb p hpc g hg s hs with ⟨p', hp', g', st, o, hk⟩ | ⟨p', hp', g', hg', hi'⟩
+      · exact Or.inl ⟨p', (hmem p').mpr (Or.inl hp'), g', st, o, hk⟩
+      · exact Or.inr ⟨p', (hmem p').mpr (Or.inl hp'), g', hg', hi'⟩
+    · simp only [Prod.mk.injEq] at hs
+      exact Or.inl ⟨_, (hmem _).mpr (Or.inr rfl), f, [], none, by rw [hs.2]⟩
+  · intro p hp g hg hne
+    exact (hbm _).mpr (Or.inl (hB.imax p (hbr p hp g hg) g hg hne))
+  · intro p hp g hg s s' hs hs0 hle hmod
+    have hpc := hbr p hp g hg
+    obtain ⟨hj, _, _, hm⟩ := hfr p hpc g hg
+    rcases (hbm _).mp hs with hs | hs
+    · exact (hbm _).mpr (Or.inl (hB.down p hpc g hg s s' hs hs0 hle hmod))
+    · simp only [Prod.mk.injEq] at hs
+      obtain ⟨_, rfl⟩ := hs
+      by_cases heq : s' = nextStart f
+      · exact (hbm _).mpr (Or.inr (by rw [heq, hj]))
+      · have hlt : s' < f.idx / f.mc * f.mc + f.mc := by simp only [nextStart] at hle heq; omega
+        have hle' := mult_le hmc (hm ▸ hmod) hlt
+        have hk0 : f.idx / f.mc ≠ 0 := by
+          intro h0; rw [h0, Nat.zero_mul] at hle'; omega
+        have hin := hB.imax x hx f hxf hk0
+        have := hB.down x hx f hxf _ s' hin hs0 hle' (hm ▸ hmod)
+        exact (hbm _).mpr (Or.inl (hj ▸ this))
+  · intro p hp g hg s hs
+    have hpc := hbr p hp g hg
+    obtain ⟨hj, hbrs, _, hm⟩ := hfr p hpc g hg
+    rcases (hbm _).mp hs with hs | hs
+    · exact hB.bmult p hpc g hg s hs
+    · simp only [Prod.mk.injEq] at hs
+      obtain ⟨_, rfl⟩ := hs
+      refine ⟨nextStart_pos hmc, by rw [hm]; exact nextStart_mod, ?_⟩
+      simp only [Frame.width, hbrs]; exact hnext
+  · intro b hb'
+    rw [hn]
+    rcases (hbm _).mp hb' with h | rfl
+    · exact hB.bjlt b h
+    · exact hS.jlt x hx f hxf
+
 end Asl.Crash
